@@ -7,7 +7,7 @@ use vrp_core::construction::heuristics::InsertionCost;
 use vrp_core::models::{Goal, GoalBuilder};
 use vrp_core::prelude::*;
 use vrp_core::rosomaxa::evolution::objectives::dominance_order;
-use vrp_core::rosomaxa::prelude::HeuristicObjective;
+use vrp_core::rosomaxa::prelude::{HeuristicObjective, HeuristicSolution};
 use vrp_verif_harness::*;
 
 struct FitKey;
@@ -108,7 +108,107 @@ fn gen_cases(rng: &mut Rng, tier: Tier) -> Vec<Value> {
         let y: Vec<i64> = (0..ly).map(|_| rng.range(-m, m)).collect();
         cases.push(json!({"k": "iarith", "x": x, "y": y}));
     }
+    for _ in 0..(30 * scale) {
+        cases.push(gen_realgoal(rng));
+    }
     cases
+}
+
+/// a REAL goal on REAL solutions: a pragmatic problem whose `minimize-unassigned` objective weighs skipped breaks with a
+/// fraction, several vehicles whose break cannot be taken once they serve a long job around it, jobs that fit no vehicle; solved
+/// twice; the order laws and "fitness is a function of the solution" are evaluated repeatedly on the contexts
+fn gen_realgoal(rng: &mut Rng) -> Value {
+    let vehicles = rng.usize(3, 7);
+    let long_jobs = rng.usize(2, vehicles);
+    let big = rng.usize(1, 5);
+    let small = rng.usize(0, 4);
+    let weights = [[3, 10], [7, 10], [1, 10], [9, 10], [1, 1], [5, 2], [1, 3]];
+    let w = *rng.pick(&weights);
+    let n = 1 + long_jobs + big + small;
+    let m: Vec<i64> = (0..n * n).map(|k| if k / n == k % n { 0 } else { rng.range(5, 60) }).collect();
+    json!({"k": "realgoal", "vehicles": vehicles, "long": long_jobs, "big": big, "small": small, "w": w, "m": m,
+           "gens": [rng.usize(2, 6), rng.usize(7, 15)], "tours_above_unassigned": rng.chance(1, 4)})
+}
+
+fn exec_realgoal(case: &Value) -> Value {
+    use vrp_pragmatic::format::problem::PragmaticProblem;
+    let u = |k: &str| case[k].as_u64().unwrap() as usize;
+    let (vehicles, long_jobs, big, small) = (u("vehicles"), u("long"), u("big"), u("small"));
+    let n = 1 + long_jobs + big + small;
+    let ts = |t: i64| format!("1970-01-01T{:02}:{:02}:{:02}Z", t / 3600, (t % 3600) / 60, t % 60);
+    let mut jobs = vec![];
+    for i in 0..long_jobs {
+        // service 11:30 .. 13:30 around the break window 12:00 .. 13:00
+        jobs.push(json!({"id": format!("long{i}"), "deliveries": [{"places": [{"location": {"index": 1 + i}, "duration": 7200.0,
+            "times": [[ts(41400), ts(41700)]]}], "demand": [1]}]}));
+    }
+    for i in 0..big {
+        jobs.push(json!({"id": format!("big{i}"), "deliveries": [{"places": [{"location": {"index": 1 + long_jobs + i}, "duration": 300.0}], "demand": [100]}]}));
+    }
+    for i in 0..small {
+        jobs.push(json!({"id": format!("small{i}"), "deliveries": [{"places": [{"location": {"index": 1 + long_jobs + big + i}, "duration": 60.0}], "demand": [1]}]}));
+    }
+    let w = case["w"][0].as_f64().unwrap() / case["w"][1].as_f64().unwrap();
+    let mut objectives = vec![json!({"type": "minimize-unassigned", "breaks": w}), json!({"type": "minimize-tours"}), json!({"type": "minimize-cost"})];
+    if case["tours_above_unassigned"].as_bool().unwrap_or(false) {
+        objectives.swap(0, 1);
+    }
+    let problem = json!({
+        "plan": {"jobs": jobs},
+        "fleet": {"vehicles": [{
+            "typeId": "v", "vehicleIds": (0..vehicles).map(|i| format!("v{i}")).collect::<Vec<_>>(),
+            "profile": {"matrix": "car"}, "costs": {"fixed": 20.0, "distance": 1.0, "time": 1.0},
+            "shifts": [{"start": {"earliest": ts(28800), "location": {"index": 0}}, "end": {"latest": ts(64800), "location": {"index": 0}},
+                        "breaks": [{"time": [ts(43200), ts(46800)], "places": [{"duration": 1800.0}]}]}],
+            "capacity": [10]}], "profiles": [{"name": "car"}]},
+        "objectives": objectives,
+    });
+    let m: Vec<i64> = i64s(&case["m"]);
+    assert_eq!(m.len(), n * n);
+    let matrix = json!({"profile": "car", "travelTimes": m, "distances": m});
+    let core = match (problem.to_string(), vec![matrix.to_string()]).read_pragmatic() {
+        Ok(p) => Arc::new(p),
+        Err(e) => return json!({"error": format!("generated problem is invalid: {:?}", e.errors.iter().map(|x| x.code.clone()).collect::<Vec<_>>())}),
+    };
+    let env = Arc::new(Environment { logger: Arc::new(|_| ()), ..Environment::default() });
+    let mut ctxs: Vec<InsertionContext> = vec![];
+    for g in case["gens"].as_array().unwrap() {
+        let (p2, e2, gens) = (core.clone(), env.clone(), g.as_u64().unwrap() as usize);
+        let solved = isolated(1, move || -> Result<vrp_core::models::Solution, String> {
+            let config = VrpConfigBuilder::new(p2.clone())
+                .set_environment(e2)
+                .set_telemetry_mode(vrp_core::rosomaxa::evolution::TelemetryMode::None)
+                .prebuild()
+                .map_err(|e| e.to_string())?
+                .with_max_generations(Some(gens))
+                .build()
+                .map_err(|e| e.to_string())?;
+            Solver::new(p2.clone(), config).solve().map_err(|e| e.to_string())
+        });
+        match solved {
+            Ok(Ok(solution)) => {
+                let ctx = InsertionContext::new_from_solution(core.clone(), (solution, None), env.clone());
+                let copy = ctx.deep_copy();
+                ctxs.push(ctx);
+                ctxs.push(copy);
+            }
+            Ok(Err(e)) => return json!({"error": e}),
+            Err(_) => return json!({"panic": format!("the solver panicked: {}", last_panic())}),
+        }
+    }
+    let goal = &core.goal;
+    let fit = |c: &InsertionContext| -> Vec<u64> { goal.fitness(c).map(|v| v.to_bits()).collect() };
+    let fits: Vec<Vec<u64>> = ctxs.iter().map(fit).collect();
+    let matrix_of = || -> Vec<Vec<i64>> { ctxs.iter().map(|a| ctxs.iter().map(|b| ord_to_i(goal.total_order(a, b))).collect()).collect() };
+    let m0 = matrix_of();
+    // evaluated again and again: neither the fitness of a solution nor the outcome of a comparison may change
+    let mut stable = true;
+    for _ in 0..12 {
+        stable &= ctxs.iter().zip(fits.iter()).all(|(c, f)| fit(c) == *f);
+        stable &= matrix_of() == m0;
+    }
+    let unassigned: Vec<usize> = ctxs.iter().map(|c| c.solution.unassigned.len()).collect();
+    json!({"fits": fits, "m": m0, "stable": stable, "unassigned": unassigned})
 }
 
 fn u64s(v: &Value) -> Vec<u64> {
@@ -241,6 +341,7 @@ fn exec(case: &Value) -> Value {
             json!({"add": to_ints(&add), "sub": to_ints(&sub), "add_sub": to_ints(&add_sub),
                    "sub_add": to_ints(&sub_add), "cmp": ord_to_i(x.cmp(&y))})
         }
+        "realgoal" => exec_realgoal(case),
         other => panic!("unknown case kind {other}"),
     }
 }
